@@ -61,8 +61,28 @@ Definition opt_table_eqb (a b : option (list row)) : bool :=
   | _, _ => false
   end.
 
+(** The content of a writer document as values of the wire structs. *)
+Definition ps_of_group (g : wgroup) : propstat :=
+  {| ps_props := wg_props g; ps_status := {| st_code := wg_code g; st_text := wg_reason g |} |}.
+Definition resp_of_wresp (r : wresp) (hs : list string) : response :=
+  {| r_hrefs := hs; r_propstats := map ps_of_group (wr_groups r); r_desc := wr_desc r;
+     r_status := option_map (fun ct => {| st_code := fst ct; st_text := snd ct |}) (wr_status r);
+     r_error := None |}.
+
 Section WithCodecs.
 Variable cd hd : codecs.
+
+Definition resp_opt (r : wresp) : option response :=
+  match mapM (href_dec cd) (wr_hrefs r) with
+  | None => None
+  | Some hs => Some (resp_of_wresp r hs)
+  end.
+(** [None]: an href of the document does not parse *)
+Definition ms_opt (d : wdoc) : option multistatus :=
+  match mapM resp_opt (wd_resps d) with
+  | None => None
+  | Some rs => Some {| ms_responses := rs; ms_sync_token := wd_token d |}
+  end.
 
 (** * Premises: the codecs round-trip the values of this input *)
 Definition opt_str_is (o : option string) (s : string) : bool :=
@@ -246,6 +266,26 @@ Definition run_call (fl : flavor) (c : call) (reqpath : string) (body : xtree) :
                        end)
   end.
 
+(** What a call should return for the CONTENT of a writer document, whatever its layout:
+    the per-resource reading applied to the content itself, no XML involved. *)
+Definition content_call (fl : flavor) (c : call) (reqpath : string) (d : wdoc) : call_result :=
+  let sync_res (r : cres (string * list sync_item)) :=
+      match r with
+      | COk (tok, l) => COk (tok, sync_updated l, sync_deleted l)
+      | CHttp c => CHttp c
+      | COther => COther
+      end in
+  match ms_opt d with
+  | None => match c with CallObjects => RObjects COther | CallFind => RFind COther | CallSync => RSync COther end
+  | Some ms =>
+    match c with
+    | CallObjects => RObjects (decode_object_list cd fl ms)
+    | CallFind => RFind (bindc (mapC (find_one fl) (ms_responses ms)) (fun l => COk (somes l)))
+    | CallSync => RSync (sync_res (bindc (mapC (sync_one cd reqpath) (ms_responses ms))
+                                         (fun l => COk (ms_sync_token ms, List.concat l))))
+    end
+  end.
+
 Definition upd_eqb (a b : string * string * Z) : bool :=
   String.eqb (fst (fst a)) (fst (fst b)) && String.eqb (snd (fst a)) (snd (fst b)) && (snd a =? snd b).
 Definition sync_res_eqb (a b : string * list (string * string * Z) * list string) : bool :=
@@ -276,7 +316,9 @@ Definition check_vdoc (fl : flavor) (c : call) (reqpath : string) (d1 d2 : wdoc)
   {| agree := xtree_eqb (rfc_write d1) tree1 && xtree_eqb (rfc_write d2) tree2
               && call_result_eqb (run_call fl c reqpath tree1) obs1
               && call_result_eqb (run_call fl c reqpath tree2) obs2;
-     spec := call_result_eqb obs1 obs2;
+     spec := call_result_eqb obs1 obs2
+             && call_result_eqb (content_call fl c reqpath d1) obs1
+             && call_result_eqb (content_call fl c reqpath d2) obs2;
      applies := wdoc_ok d1 && wdoc_ok d2 && same_content_b cd (known_for fl c) d1 d2;
      (* known finding C10-foreign-namesake: RFC-conformant layouts of the same content, one
         of which holds a foreign-namespace element with the local name of a schema element,
